@@ -10,6 +10,12 @@ Line-protocol component for C16.
     equal i j  subset i j  superset i j  clone d i  cloneempty d i  new d k v…  newf d k F v…
     union d i j…  inter d i j…  diff d i j…  powerset i  partitions i  powermut i v  partmut i v
     powerstr i  partstr i
+    addseq i lo n step  removeseq i lo n step     n calls Add(v) / Remove(v), v = lo, lo+step, …  (the harness examines the set after every call)
+    addvar i lo n step  removevar i lo n step     one variadic call with those n values
+    all2 i j      seq := i.All(); run seq; run j.All(); run seq again        (prints the three runs)
+    allnest i j   for range i.All() { run j.All() }                          (prints the outer run and the number of inner yields)
+    allpull i j   iter.Pull(i.All()), iter.Pull(j.All()) advanced alternately (prints both)
+    allbreak i k  a traversal of i abandoned after k members, then a full one (prints min(k, size) and the full run)
     anymatch i P  allmatch i P  firstmatch i P  select d i P  partition d e i P     P ∈ ge:<k> lt:<k> odd even
 
 `newf d k F v…` is `NewWithFormat` / `NewStableWithFormat` / `NewSortedWithFormat` (by kind `k`) with the custom
@@ -246,6 +252,96 @@ def step (st : St) (ws : List String) : Option (Outcome (St × String)) :=
       lift (s.partitions shuffle st.g) fun (ps, g) => some (.ok ({ st with g := g }, "ok " ++ ps.string))
     | _ => none
 
+/-- `lo, lo+step, …` (`n` values) -/
+def progression (lo : Int) (n : Nat) (step : Int) : List Int :=
+  (List.range n).map fun (j : Nat) => lo + Int.ofNat j * step
+
+/-- a list of Model operations run one after the other (the compact forms `addseq` … are nothing but that) -/
+def stepMany (st : St) : List (OpX Int) → Outcome St
+  | [] => .ok st
+  | op :: ops =>
+    match stepX shuffle pvI (st.regs, st.g) op with
+    | .ok ((regs, g), _, _) => stepMany { st with regs := regs, g := g } ops
+    | .panic => .panic
+    | .diverge => .diverge
+
+/-- one `All()` of register `i`: the members as yielded (unordered: canonical form ascending) and the new state -/
+def allOf (st : St) (i : Nat) : Option (Outcome (St × List Int × String)) := do
+  let s ← st.regs[i]?
+  match stepX shuffle pvI (st.regs, st.g) (.base (.all i)) with
+  | .ok ((regs, g), .elems l, _) =>
+    some (.ok ({ st with regs := regs, g := g }, l, showIntList (if isUnordered s.set then isort ltI l else l)))
+  | .ok _ => none
+  | .panic => some .panic
+  | .diverge => some .diverge
+
+/-- the line-protocol forms that are compositions of Model operations -/
+def stepMacro (st : St) (ws : List String) : Option (Outcome (St × String)) :=
+  let seqOf (i lo n step : String) (mk : Nat → List Int → List (OpX Int)) : Option (Outcome (St × String)) := do
+    let i ← parseNat? i; let lo ← parseInt? lo; let n ← parseNat? n; let step ← parseInt? step
+    let _ ← st.regs[i]?
+    match stepMany st (mk i (progression lo n step)) with
+    | .ok st' => some (.ok (st', "ok"))
+    | .panic => some .panic
+    | .diverge => some .diverge
+  match ws with
+  | ["addseq", i, lo, n, step] => seqOf i lo n step fun i vs => vs.map fun v => .base (.add i [v])
+  | ["removeseq", i, lo, n, step] => seqOf i lo n step fun i vs => vs.map fun v => .base (.remove i [v])
+  | ["addvar", i, lo, n, step] => seqOf i lo n step fun i vs => [.base (.add i vs)]
+  | ["removevar", i, lo, n, step] => seqOf i lo n step fun i vs => [.base (.remove i vs)]
+  | ["all2", i, j] => do
+    -- the iter.Seq of `i` is a value: run twice it yields the same members; `All()` is called once per set
+    let i ← parseNat? i; let j ← parseNat? j
+    match ← allOf st i with
+    | .ok (st, _, a) =>
+      match ← allOf st j with
+      | .ok (st, _, b) => some (.ok (st, s!"ok {a} {b} {a}"))
+      | .panic => some .panic
+      | .diverge => some .diverge
+    | .panic => some .panic
+    | .diverge => some .diverge
+  | ["allpull", i, j] => do
+    let i ← parseNat? i; let j ← parseNat? j
+    match ← allOf st i with
+    | .ok (st, _, a) =>
+      match ← allOf st j with
+      | .ok (st, _, b) => some (.ok (st, s!"ok {a} {b}"))
+      | .panic => some .panic
+      | .diverge => some .diverge
+    | .panic => some .panic
+    | .diverge => some .diverge
+  | ["allnest", i, j] => do
+    -- one `All()` of `j` per member of `i`
+    let i ← parseNat? i; let j ← parseNat? j
+    let _ ← st.regs[j]?
+    match ← allOf st i with
+    | .ok (st, l, a) =>
+      let rec inner (st : St) (total : Nat) : Nat → Option (Outcome (St × Nat))
+        | 0 => some (.ok (st, total))
+        | k + 1 =>
+          match allOf st j with
+          | some (.ok (st, lj, _)) => inner st (total + lj.length) k
+          | some .panic => some .panic
+          | some .diverge => some .diverge
+          | none => none
+      match ← inner st 0 l.length with
+      | .ok (st, total) => some (.ok (st, s!"ok {a} {total}"))
+      | .panic => some .panic
+      | .diverge => some .diverge
+    | .panic => some .panic
+    | .diverge => some .diverge
+  | ["allbreak", i, k] => do
+    let i ← parseNat? i; let k ← parseNat? k
+    match ← allOf st i with
+    | .ok (st, l, _) =>
+      match ← allOf st i with
+      | .ok (st, _, a) => some (.ok (st, s!"ok {min k l.length} {a}"))
+      | .panic => some .panic
+      | .diverge => some .diverge
+    | .panic => some .panic
+    | .diverge => some .diverge
+  | _ => none
+
 def runReg (hdr : List String) (ops : List String) : List String := Id.run do
   let kinds := (headerGet hdr "regs").getD ""
   let some impls := kinds.toList.mapM implOf | return ops.map fun _ => "bad-case"
@@ -253,7 +349,11 @@ def runReg (hdr : List String) (ops : List String) : List String := Id.run do
   let mut out : Array String := #[]
   for line in ops do
     if st.dead then out := out.push "skip"; continue
-    match step st (words line) with
+    let ws := words line
+    let r := match stepMacro st ws with
+      | some r => some r
+      | none => step st ws
+    match r with
     | none => out := out.push "bad-op"
     | some (.ok (st', s)) => st := st'; out := out.push s
     | some .panic => st := { st with dead := true }; out := out.push "panic"
